@@ -258,3 +258,15 @@ Theorem C07_queued_messages_delivered_at_start : forall mr ms i m,
   exists x, In x (fst (MsgQueue.q_drain (MsgQueue.q_run mr ms) i)) /\ MsgQueue.same_slot m x = true.
 Proof. exact MsgQueueProofs.queued_messages_delivered_at_start. Qed.
 Print Assumptions C07_queued_messages_delivered_at_start.
+
+(* beginInstance with queued messages (Start, then ReceiveMany of what messageQueue.Drain returns): for every power-table
+   committee, input, start time and queue of validated messages ordered by round, the instance records no internal error
+   and all instance invariants hold afterwards (Gpbft/InstanceMany.v; the executable definitions are the ones replayed
+   against the real participant by traceq_ok, which evaluates the two hypotheses on every drained queue) *)
+From F3 Require InstanceMany.
+Theorem C07_begin_with_queue_no_internal_error : forall c, InstanceNoPanic.committee_wf c -> forall input now ms,
+  InstanceMany.queue_ok ms ->
+  let i := InstanceRun.start_with_queue c (Instance.new_instance input 0) now ms in
+  Instance.i_err i = None /\ InstanceOrder.Inv i /\ InstanceConverge.PI i /\ InstanceNoPanic.AllQ c i /\ InstanceJust.JI i.
+Proof. exact InstanceMany.start_with_queue_no_internal_error. Qed.
+Print Assumptions C07_begin_with_queue_no_internal_error.
